@@ -268,6 +268,8 @@ def write_replay(ctx, kind, payload):
 
 
 def write_evidence(ctx, coverage, assumptions, violations, level='proof'):
+    if os.environ.get('VERIF_EVIDENCE_SKIP'):
+        return      # runs against a seeded or otherwise modified tree leave the evidence alone
     os.makedirs(os.path.join(VERIF, 'evidence'), exist_ok=True)
     ev = dict(property_id=ctx.prop, tier=ctx.tier, seed=ctx.seed, level=level,
               coverage=coverage, assumptions=assumptions, wall_s=ctx.wall(),
